@@ -422,6 +422,16 @@ def illegal_for(resp, e):
     return out
 
 
+def lenient(e):
+    ps = []
+    for n, v in e["params"]:
+        for known in PARAMS:
+            if n.startswith(known):
+                ps.append((known, v if (v is not None and v.isdigit() and known in (P_CMWB, P_SMWB)) else None))
+                break
+    return dict(e, params=ps)
+
+
 def judge_negotiation(level, elements, resp_headers):
     """-> (violations [(key, detail)], negotiated dict or None)"""
     viol = []
@@ -445,8 +455,15 @@ def judge_negotiation(level, elements, resp_headers):
     pmd = [(c, e) for c, e in classes if c != "other"]
     usable = [(c, e) for c, e in pmd if c in ("valid", "ambiguous")]
     if not any(not illegal_for(resp, e) for c, e in usable):
+        invalid = [(c, e) for c, e in pmd if c.startswith("invalid:")]
+        # an offer element the server MUST decline, read the way a lenient parser would read it
+        culprit = [c for c, e in invalid if not illegal_for(resp, lenient(e))]
+        # several invalid elements may explain the answer; name the violation after the most specific reason
+        culprit.sort(key=lambda c: (0 if c.endswith("-with-value") else 1 if c.endswith("unknown-parameter") else 2))
         if not pmd:
             viol.append(("deflate/negotiation-answers-without-offer", detail))
+        elif culprit:
+            viol.append(("deflate/negotiation-accepts-invalid-offer:" + culprit[0].split(":", 1)[1], detail))
         elif not usable:
             viol.append(("deflate/negotiation-accepts-invalid-offer:" + pmd[0][0].split(":", 1)[1], detail))
         else:
@@ -691,6 +708,9 @@ FRAGS = ["single", "1+rest", "1+10000", "many-small", "halves", "random-cuts", "
 
 def fragment(rng, d, cls):
     n = len(d)
+    if cls.startswith("cuts:"):
+        cuts = [min(int(x), n) for x in cls[5:].split(",")]
+        return [d[a:b] for a, b in zip([0] + cuts, cuts + [n])]
     if cls == "single" or n < 2:
         return [d]
     if cls == "1+rest" or cls == "1+10000":
@@ -872,10 +892,9 @@ def sc_s2c(case, res):
         earlier = []
 
         def keyfn(cls, pl):
-            k = "payload=" + size_class(len(pl))
             if earlier and min(earlier) <= 16:      # a tiny message may leave output behind in the deflater
-                k += ":after-payload=" + size_class(min(earlier))
-            return k
+                return "message-after-payload=" + size_class(min(earlier))
+            return "payload=" + size_class(len(pl))
         # shape of a crash = the message being sent when the process died
         inf = RefInflater(neg["smwb"], neg["snct"])
         for i, (cls, pl) in enumerate(payloads):
@@ -892,7 +911,7 @@ def sc_c2s(case, res):
     rng = random.Random(case["seed"])
     payloads = [(cls, make_payload(rng, cls, n)) for cls, n in p["payloads"]]
     style = p.get("style", "sync")
-    suffix = p["frag"] if p["frag"] == "single" else "fragmented:" + p["frag"]
+    suffix = p["frag"] if p["frag"] == "single" else "fragmented:" + p["frag"].split(":")[0]
     if style == "bfinal":
         suffix = "bfinal-block:" + suffix
     if not p.get("compressed", True):
@@ -1146,8 +1165,12 @@ def gen_cases(tier, seed):
     thorough = tier == "thorough"
     cases = []
 
-    def add(scen, **params):
-        cases.append(dict(kind=scen, seed=rng.getrandbits(48), params=params))
+    def add(scen, fixed=None, **params):
+        # fixed: content independent of VERIF_SEED (minimal witnesses must not come and go with the seed)
+        cs = rng.getrandbits(48)
+        if fixed is not None:
+            cs = int(hashlib.sha1(repr(fixed).encode()).hexdigest()[:12], 16)
+        cases.append(dict(kind=scen, seed=cs, params=params))
 
     # --- s2c: tiny payloads, one message per process (each may wreck the stream)
     tiny = list(range(0, 17)) + [20, 24, 32]
@@ -1156,7 +1179,9 @@ def gen_cases(tier, seed):
             for cls in (("random", "repetitive", "high") if n else ("random",)):
                 for kind in ("t", "b") if (thorough or n < 4) else ("t",):
                     # the follow-up message shows output that the tiny one left behind in the deflater
-                    add("s2c", level=level, kind=kind, offer=rng.choice(OFFERS_S2C) if thorough else {}, payloads=[(cls, n), ("text", 40)])
+                    add("s2c", fixed=("tiny", level, n, cls, kind), level=level, kind=kind, offer={}, payloads=[(cls, n), ("text", 40)])
+                    if thorough:
+                        add("s2c", level=level, kind=kind, offer=rng.choice(OFFERS_S2C), payloads=[(cls, n), ("text", 40)])
     # --- s2c: frame length boundaries (compressed length 125/126/127, 65535/65536)
     for level in (1, 2, 3):
         for n in range(108, 132, 1 if thorough else 2):
@@ -1166,7 +1191,7 @@ def gen_cases(tier, seed):
             add("s2c", level=level, kind="b", offer={}, payloads=[("random", n)])
     # --- s2c: sequences (context takeover across messages)
     sizes = [5, 6, 7, 8, 9, 10, 12, 16, 17, 33, 64, 100, 125, 126, 127, 128, 200, 300, 512, 1000, 1500, 4096, 10000, 16384, 32768, 65535, 65536]
-    for i in range(700 if thorough else 100):
+    for i in range(3000 if thorough else 100):
         k = rng.randrange(2, 6)
         pls = []
         for _ in range(k):
@@ -1201,7 +1226,7 @@ def gen_cases(tier, seed):
                 out.append((cls, n))
         return out
     for frag in FRAGS:
-        reps = (60 if thorough else 16) * (4 if frag == "single" else 1)
+        reps = (250 if thorough else 16) * (4 if frag == "single" else 1)
         for i in range(reps):
             level = rng.choice((1, 2, 3))
             add("c2s", level=level, kind=rng.choice("tb"), offer=rng.choice(OFFERS_C2S), frag=frag,
@@ -1210,24 +1235,34 @@ def gen_cases(tier, seed):
                 takeover=rng.choice([None, None, False]), misalign=rng.randrange(8))
     # deterministic minimal witnesses (stable inputs, independent of the seed's sampling)
     for level in (1, 2, 3):
-        add("c2s", level=level, kind="b", offer={}, frag="1+rest", payloads=[("random", 100)], zlevel=6)
-        add("c2s", level=level, kind="t", offer={}, frag="1+10000", payloads=[("random", 10001)], zlevel=6)
-        add("c2s", level=level, kind="t", offer={}, frag="halves", payloads=[("json", 400)], zlevel=6)
-        add("c2s", level=level, kind="t", offer={}, frag="single", payloads=[("random", 0), ("random", 1), ("text", 50)], zlevel=6)
-        add("c2s", level=level, kind="t", offer={}, frag="single", payloads=[("json", 300), ("json", 300), ("json", 300)], zlevel=9)
-        add("c2s", level=level, kind="t", offer={"cnct": True}, frag="single", payloads=[("json", 300), ("json", 300)], zlevel=9)
-        add("c2s", level=level, kind="t", offer={}, frag="single", style="bfinal", payloads=[("text", 60), ("text", 60)])
-        add("c2s", level=level, kind="t", offer={}, frag="single", compressed=False, payloads=[("text", 60), ("json", 600)])
-        add("c2s", level=level, kind="t", offer={}, frag="halves", compressed=False, payloads=[("text", 60), ("json", 600)])
-        add("c2s", level=level, kind="b", offer={}, frag="with-pings", payloads=[("json", 2000)], zlevel=6)
+        det = ("c2s-witness", level)
+        add("c2s", fixed=det, level=level, kind="b", offer={}, frag="1+rest", payloads=[("random", 100)], zlevel=6)
+        add("c2s", fixed=det, level=level, kind="t", offer={}, frag="1+10000", payloads=[("random", 10001)], zlevel=6)
+        add("c2s", fixed=det, level=level, kind="t", offer={}, frag="halves", payloads=[("json", 400)], zlevel=6)
+        add("c2s", fixed=det, level=level, kind="t", offer={}, frag="single", payloads=[("random", 0), ("random", 1), ("text", 50)], zlevel=6)
+        add("c2s", fixed=det, level=level, kind="t", offer={}, frag="single", payloads=[("json", 300), ("json", 300), ("json", 300)], zlevel=9)
+        add("c2s", fixed=det, level=level, kind="t", offer={"cnct": True}, frag="single", payloads=[("json", 300), ("json", 300)], zlevel=9)
+        add("c2s", fixed=det, level=level, kind="t", offer={}, frag="single", style="bfinal", payloads=[("text", 60), ("text", 60)])
+        add("c2s", fixed=det, level=level, kind="t", offer={}, frag="single", compressed=False, payloads=[("text", 60), ("json", 600)])
+        add("c2s", fixed=det, level=level, kind="t", offer={}, frag="halves", compressed=False, payloads=[("text", 60), ("json", 600)])
+        add("c2s", fixed=det, level=level, kind="b", offer={}, frag="with-pings", payloads=[("json", 2000)], zlevel=6)
+    # every two-way split (thorough: every three-way split of a short one) of one compressed message
+    for level in ((1, 2, 3) if thorough else (3,)):
+        for k in range(1, 50):
+            add("c2s", fixed=("cut2", level, k), level=level, kind="t", offer={}, frag="cuts:%d" % k, payloads=[("json", 60)], zlevel=6)
+        if thorough:
+            for a in range(0, 19):
+                for b in range(a, 19):
+                    add("c2s", fixed=("cut3", level, a, b), level=level, kind="b", offer={}, frag="cuts:%d,%d" % (a, b),
+                        payloads=[("text", 24)], zlevel=6)
     # smaller client window than negotiated is legal
-    for i in range(40 if thorough else 6):
+    for i in range(200 if thorough else 6):
         add("c2s", level=rng.choice((2, 3)), kind="b", offer={"cmwb": "15"}, frag="single", wbits=rng.randrange(9, 15),
             payloads=[("mixed", rng.randrange(100, 30000)), ("mixed", rng.randrange(100, 30000))], zlevel=rng.choice([1, 9]))
 
     # --- corrupt
     for how in MUTATIONS:
-        reps = 90 if thorough else 14
+        reps = 350 if thorough else 14
         if how in ("bitflip", "bitflips", "truncate", "random-bytes", "garbage"):
             reps *= 3
         for i in range(reps):
@@ -1245,6 +1280,21 @@ def gen_cases(tier, seed):
                 payload=(rng.choice(CLASSES), rng.choice([10, 100, 1000, 5000, 40000])), fragmented=fragd,
                 chunk=rng.choice([0, 0, 1, 100]), prefix_valid=rng.random() < 0.3, zlevel=rng.choice([1, 6, 9]), **extra)
 
+    # fixed witnesses: one per mutation and level, content independent of the seed
+    for level in (1, 2, 3):
+        for how in MUTATIONS:
+            variants = [dict(prefix_valid=False)]
+            if how == "all-empty-fragments":
+                variants = [dict(prefix_valid=False, count=2), dict(prefix_valid=True, count=2)]
+            if how == "small-then-large":
+                variants = [dict(prefix_valid=False, small=1, large=10000), dict(prefix_valid=False, small=1, large=30)]
+            if how in ("bomb", "bomb-fragmented"):
+                variants = [dict(prefix_valid=False, bomb=61440, frag="1+rest")]
+            for i, v in enumerate(variants):
+                v.setdefault("frag", "halves")
+                add("corrupt", fixed=("corrupt-witness", level, how, i), level=level, kind="b", offer={}, how=how,
+                    payload=("json", 1000), fragmented=(how in ("bitflips", "truncate")), chunk=0, zlevel=6, **v)
+
     # --- negotiation
     sysoff = systematic_offers()
     for level in (1, 2, 3):
@@ -1253,7 +1303,7 @@ def gen_cases(tier, seed):
             add("nego", level=level, elements=els, headers=hs)
     for els in sysoff[:12]:
         add("nego", level=0, elements=els, headers=[", ".join(e["text"] for e in els)] if els else [])
-    for i in range(9000 if thorough else 700):
+    for i in range(40000 if thorough else 700):
         els, hs = gen_offer(rng)
         add("nego", level=rng.choice((1, 2, 3)), elements=els, headers=hs)
 
